@@ -1,5 +1,6 @@
 pub mod auth;
 pub mod c03;
+pub mod c04;
 pub mod c05;
 pub mod c06;
 pub mod c09;
